@@ -22,9 +22,11 @@ FAMILIES = {
              'forwarding registrations, sync/async/raising handlers, nested dispatch, in-handler awaits, re-dispatch, 1-2 external tasks); '
              'non-trivial: at least two handler instances are scheduled and some handler suspends (await or sleep); distinct: hash of the label sequence'),
     'C02': dict(
-        gens=[('core', dict(nb=(2, 3), p_parallel=0.1), 1.0)],
-        facets=CORE + ['lock', 'await', 'dispatch'],
+        gens=[('core', dict(nb=(2, 3), p_parallel=0.1), 0.7), ('core', dict(nb=(1, 2), p_parallel=0.0, p_timeout=0.6), 0.15),
+              ('chain', dict(p_timeout=0.6, p_unrelated=0.7), 0.15)],
+        facets=CORE + ['lock', 'await', 'dispatch', 'timeout'],
         rule='2-3 buses, cross-bus dispatch from handlers with yields between dispatch and await, external dispatchers at offsets; '
+             'handler timeouts that cancel an awaiting handler while it processes other events inline; '
              'non-trivial: some run loop holds a taken event while another process runs (take not immediately followed by its peBegin)'),
     'C03': dict(
         gens=[('core', dict(tasklen=(2, 7)), 0.7), ('chain', dict(p_timeout=0.2, p_await=0.4, p_parallel=0.2), 0.3)],
@@ -38,8 +40,8 @@ FAMILIES = {
         rule='handlers that dispatch to any bus and await with sleeps/yields before and during the await, nesting <= 4; '
              'non-trivial: an in-handler await occurs'),
     'C05': dict(
-        gens=[('core', dict(nb=(1, 3), proglen=(1, 6), tasklen=(2, 7)), 0.5), ('chain', dict(p_timeout=0.0, p_unrelated=0.8, p_parallel=0.2), 0.2),
-              ('chain', dict(p_timeout=1.0, p_await=0.95, min_depth=3, nb=(1, 1), maxh=(50,), p_unrelated=0.6), 0.3)],
+        gens=[('core', dict(nb=(1, 3), proglen=(1, 6), tasklen=(2, 7)), 0.45), ('chain', dict(p_timeout=0.0, p_unrelated=0.8, p_parallel=0.2), 0.2),
+              ('chain', dict(p_timeout=1.0, p_await=0.95, min_depth=3, nb=(1, 1), maxh=(50,), p_unrelated=0.6), 0.25), ('deep', dict(), 0.1)],
         facets=CORE + ['await', 'signal', 'lock', 'timeout', 'results'],
         rule='queues holding 0-4 unrelated events before/after the awaited child on the same/other buses, external dispatch during the window; '
              'non-trivial: an in-handler await occurs while another event is queued somewhere'),
@@ -67,8 +69,8 @@ FAMILIES = {
         rule='parallel handlers dispatching at interleaved times, nested awaits, forwarding of roots and children, explicit parents, event_bus reads; '
              'non-trivial: a handler instance dispatches'),
     'C10': dict(
-        gens=[('core', dict(p_timeout=0.6, proglen=(1, 6)), 0.5), ('chain', dict(p_timeout=1.0, p_selfparent=0.15), 0.25),
-              ('chain', dict(p_timeout=1.0, p_await=0.95, min_depth=3, nb=(1, 1), maxh=(50,)), 0.25)],
+        gens=[('core', dict(p_timeout=0.6, proglen=(1, 6)), 0.45), ('chain', dict(p_timeout=1.0, p_selfparent=0.15), 0.25),
+              ('chain', dict(p_timeout=1.0, p_await=0.95, min_depth=3, nb=(1, 1), maxh=(50,)), 0.2), ('deep', dict(), 0.1)],
         facets=CORE + ['timeout', 'results', 'signal', 'unfinished', 'lineage', 'await', 'lock'],
         rule='per-type timeouts (odd multiples of 1/128 s) against handler programs of sleeps (multiples of 1/64 s), nested awaits; serial buses; '
              'non-trivial: a handler is cancelled by a deadline'),
@@ -144,7 +146,7 @@ def gen_backlog(rng, p_waitidle=0.0, **_):
     return sc
 
 
-GENS = {'core': gen.gen_core, 'backlog': gen_backlog, 'chain': gen.gen_chain, 'stop': gen.gen_stop, 'idle': gen.gen_idle}
+GENS = {'core': gen.gen_core, 'backlog': gen_backlog, 'chain': gen.gen_chain, 'stop': gen.gen_stop, 'idle': gen.gen_idle, 'deep': gen.gen_deep}
 
 
 def corpus(prop):
